@@ -686,3 +686,45 @@ func init() {
 		c.Dom("tail-not-above-head", f, th, "table.truncateHead(head)", GCond("table.itemHidden.Load() <= head", f, Cmp(hidden, token.LEQ, Any())))
 	})
 }
+
+func init() {
+	extendProp("C46", "Subnet counting sees through IPv4-mapped IPv6 addresses: in netutil.DistinctNetSet.key the prefix is computed from the unmapped address (netip.Addr.Unmap), so a node announcing ::ffff:a.b.c.d is counted with the /24 of a.b.c.d.", []string{"p2p/netutil"}, func(c *Ctx) {
+		c.Rule("CANON/C46.unmap")
+		nu := "p2p/netutil"
+		f := c.Fn(nu, "(*DistinctNetSet).key")
+		if f == nil {
+			return
+		}
+		c.Funcs[f] = true
+		n := 0
+		eachInstr(f, func(in ssa.Instruction) {
+			call, ok := in.(*ssa.Call)
+			if !ok {
+				return
+			}
+			cal := call.Call.StaticCallee()
+			if cal == nil || cal.Name() != "Prefix" || len(call.Call.Args) == 0 {
+				return
+			}
+			n++
+			recv := stripConv(call.Call.Args[0])
+			if u, ok := recv.(*ssa.UnOp); ok { // value receiver spilled to a cell
+				if al, ok := u.X.(*ssa.Alloc); ok {
+					for _, r := range *al.Referrers() {
+						if st, ok := r.(*ssa.Store); ok && st.Addr == ssa.Value(al) {
+							recv = stripConv(st.Val)
+						}
+					}
+				}
+			}
+			unmapped := false
+			if uc, ok := recv.(*ssa.Call); ok {
+				if c2 := uc.Call.StaticCallee(); c2 != nil && c2.Name() == "Unmap" {
+					unmapped = true
+				}
+			}
+			c.Check(unmapped, "prefix-of-unmapped", in.Pos(), "Prefix is taken of ip.Unmap()", "the set keys an IPv4-mapped IPv6 address by its first bits as an IPv6 address (::/24): mapped and plain addresses of one IPv4 /24 are counted separately and the bucket/table subnet limits do not hold")
+		})
+		c.Expect(1, n, "Prefix computations in DistinctNetSet.key")
+	})
+}
